@@ -32,18 +32,24 @@ def main():
         finally:
             sh('git -C /repo worktree remove --force %s' % wt)
             shutil.rmtree(wt, ignore_errors=True)
-    st = sh('git -C /repo status --porcelain -- include')
-    assert st.stdout.strip() == '', 'repo include/ not clean'
-    r = sh('git -C /repo apply %s' % patch)
-    assert r.returncode == 0, r.stderr
+    # the checks run against a scratch copy of the repository with the change applied (VERIF_REPO), never against /repo
+    # itself, so that other runs (self-test, background sweeps) are not disturbed; the copy is removed afterwards
+    scratch = '/tmp/verif_seed_%d' % os.getpid()
+    shutil.rmtree(scratch, ignore_errors=True)
+    os.makedirs(scratch)
+    for d in ('include', 'tests', 'examples'):
+        shutil.copytree(os.path.join('/repo', d), os.path.join(scratch, d))
+    r = sh('patch -p1 -s -d %s -i %s' % (scratch, patch))
+    assert r.returncode == 0, r.stdout + r.stderr
     try:
         for p in props:
             t0 = time.time()
-            r = sh('cd /verif && ./check %s --tier quick' % p)
+            env = dict(os.environ); env['VERIF_REPO'] = scratch
+            r = subprocess.run('cd /verif && ./check %s --tier quick' % p, shell=True, capture_output=True, text=True, env=env)
             lines = [l for l in r.stdout.splitlines() if l.startswith(('VIOLATION', 'PASS', 'FAIL', 'INFRA', 'KNOWN', '  {'))]
             res['checks'][p] = {'exit': r.returncode, 'wall_s': round(time.time() - t0, 1), 'lines': [l[:400] for l in lines[:6]]}
     finally:
-        sh('git -C /repo checkout -- include')
+        shutil.rmtree(scratch, ignore_errors=True)
     print(json.dumps(res, indent=1))
 
 main()
